@@ -365,27 +365,32 @@ func c06Endpoints(t *testing.T, rep *hx.Report, rng *hx.RNG, env hx.Env) {
 			var src, dst net.IP
 			var sport, dport uint16
 			var err error
-			switch proto {
-			case "icmp":
-				r, e := icmp.RunICMPTraceroute(context.Background(), icmp.Params{Target: target, ParallelParams: common.TracerouteParallelParams{TracerouteParams: common.TracerouteParams{
-					MinTTL: 1, MaxTTL: 3, TracerouteTimeout: 30 * time.Millisecond, PollFrequency: 10 * time.Millisecond, SendDelay: time.Millisecond}}})
-				err = e
-				if e == nil {
-					src, dst = r.Source.IPAddress, r.Destination.IPAddress
+			paris := rng.Bool()
+			// virtual clock: the entry points only touch real sockets for non-blocking calls (UDP
+			// connect, TCP listen), so they can run inside a bubble and are immune to CPU load
+			synctest.Test(t, func(t *testing.T) {
+				switch proto {
+				case "icmp":
+					r, e := icmp.RunICMPTraceroute(context.Background(), icmp.Params{Target: target, ParallelParams: common.TracerouteParallelParams{TracerouteParams: common.TracerouteParams{
+						MinTTL: 1, MaxTTL: 3, TracerouteTimeout: 30 * time.Millisecond, PollFrequency: 10 * time.Millisecond, SendDelay: time.Millisecond}}})
+					err = e
+					if e == nil {
+						src, dst = r.Source.IPAddress, r.Destination.IPAddress
+					}
+				case "udp":
+					r, e := udp.NewUDPv4(net.IP(target.AsSlice()), port, 1, 3, time.Millisecond, 30*time.Millisecond, false).Traceroute()
+					err = e
+					if e == nil {
+						src, dst, sport, dport = r.Source.IPAddress, r.Destination.IPAddress, r.Source.Port, r.Destination.Port
+					}
+				case "tcp":
+					r, e := tcp.NewTCPv4(net.IP(target.AsSlice()), port, 1, 3, time.Millisecond, 30*time.Millisecond, paris, false).Traceroute()
+					err = e
+					if e == nil {
+						src, dst, sport, dport = r.Source.IPAddress, r.Destination.IPAddress, r.Source.Port, r.Destination.Port
+					}
 				}
-			case "udp":
-				r, e := udp.NewUDPv4(net.IP(target.AsSlice()), port, 1, 3, time.Millisecond, 30*time.Millisecond, false).Traceroute()
-				err = e
-				if e == nil {
-					src, dst, sport, dport = r.Source.IPAddress, r.Destination.IPAddress, r.Source.Port, r.Destination.Port
-				}
-			case "tcp":
-				r, e := tcp.NewTCPv4(net.IP(target.AsSlice()), port, 1, 3, time.Millisecond, 30*time.Millisecond, rng.Bool(), false).Traceroute()
-				err = e
-				if e == nil {
-					src, dst, sport, dport = r.Source.IPAddress, r.Destination.IPAddress, r.Source.Port, r.Destination.Port
-				}
-			}
+			})
 			packets.VerifSetSourceSinkFactory(nil)
 			replay := map[string]any{"protocol": proto, "target": target.String(), "port": port}
 			if err != nil || wire == nil {
